@@ -26,19 +26,38 @@ EXPLANATION = (
     "(open-ended: starts a range there), independent of position; R3.2 ErrorLog._add is the only writer of "
     "_errors, behind the filter; CheckPoint only truncates; every Error built in the log classes reaches "
     "_add; run_program installs director.filter_error before run_bytecode; R3.3 filter_error is true iff "
-    "the line is in none of _ignore, _disables['*'], _disables[error.name] (truth table); R3.4 per-line "
-    "entries win over ranges; R3.5 every raw comment seeds a base LineRange group, groups are extended "
-    "before deletion (or popped straight into the absorbing list), base ranges are never skipped, every comment is dispatched; R3.6 regex ASTs of "
+    "the line is in none of _ignore, _disables['*'], _disables[error.name] (truth table over the verdict "
+    "expression; a verdict that delegates to single-expression methods of the Director, e.g. `not "
+    "self._is_suppressed(line, error.name)`, is judged with those methods inlined); R3.4 per-line "
+    "entries win over ranges (the range answer is `<bisect_right position> % 2 == 1`, the position written "
+    "inline or bound once); R3.5 every raw comment seeds a base LineRange group, groups are extended "
+    "before deletion (or popped straight into the absorbing list), base ranges are never skipped (every "
+    "path condition of the registration in _process_disable - once-bound locals and local predicate closures "
+    "expanded - is implied by 'not a Call range, a valid error name, values non-empty': decided by a truth "
+    "table over the atoms, so a nested keep() closure, a hoisted `isinstance(line_range, parser.Call)` local "
+    "and guard-clause spellings are the same thing), every comment is dispatched; R3.6 regex ASTs of "
     "_DIRECTIVE_RE / IGNORE_RE and the disable/enable wiring; R3.7 a trailing directive registers only its "
-    "own line (violated by design: D16); R3.8 nothing is logged before the filter exists (known finding); "
+    "own line: the line argument of every set_line/start_range is evaluated to the set of values it may "
+    "have (all plain assignments of a local, both arms of if/else and conditional expressions, return values "
+    "of Director helper methods with the call's arguments substituted) and that set must be {line}; the "
+    "own-line-or-range-start adjustment is keyed `final_line` whether a helper method or inline code computes "
+    "it (violated by design: D16), any other value is a separate violation; "
+    "R3.8 nothing is logged before the filter exists (known finding); "
     "R3.9 def-use over filter_error: every membership test on a _LineSet table of the Director is keyed by "
     "a value read from error.line after the last statement that can move the error (methods of "
     "errors.Error that store _line, derived from errors.py) on every path - a key computed before "
-    "error.set_line(end) looks up the pre-adjustment line; R3.10 tokenizer side: _process_comments hands "
+    "error.set_line(end) looks up the pre-adjustment line; a Director method that is handed the error counts "
+    "as a mover iff it (or a Director method it hands it to) calls a line writer on it / stores its line, as "
+    "harmless iff it only reads it, else unsure; membership tests inside a single-expression Director method "
+    "called from filter_error are judged at the call with the arguments substituted; "
+    "R3.10 tokenizer side: _process_comments hands "
     "every COMMENT token (no other guard) with token.line/start to _process_comment and files the result "
     "under the token's row in the mapping it returns; _process_comment loops over all finditer matches of "
-    "_DIRECTIVE_RE in line[col:], leaves the loop only by continue/fall-through (or the skip-file raise), "
-    "yields _StructuredComment(row, group 1, group 2, open_ended) with open_ended = 'only blanks before "
+    "_DIRECTIVE_RE in line[col:] (once-bound locals such as `comment = line[col:]` inlined), may leave before "
+    "the loop only when there is no match at all (empty match list, or _DIRECTIVE_RE.search(line[col:]) is "
+    "None - match()/fullmatch() are not equivalent), leaves the loop only by continue/fall-through (or the "
+    "skip-file raise), produces - by `yield`, or by appending to a fresh list that is touched nowhere else and "
+    "returned after the loop - _StructuredComment(row, group 1, group 2, open_ended) with open_ended = 'only blanks before "
     "the comment', and every path that does not yield has `open_ended` and `tool == \"type\"` in its path "
     "condition (only a type: comment nested in a stand-alone comment may be dropped); parse_src/"
     "visit_src_tree pass that mapping to _ParseVisitor, and run_program parses the text it compiles.  "
@@ -53,6 +72,10 @@ ASSUMPTIONS = [
     "R3.9: the only ways to move an existing error are the methods of errors.Error that store self._line "
     "and direct stores to <err>._line/.line; a call that merely receives the error as an argument is "
     "'unsure' (analysis error if it separates the key from its test), not a violation",
+    "R3.5/R3.7/R3.9: helper methods are followed only inside class Director (self.<method>), two to three "
+    "levels; a local closure used in a path condition must be a pure predicate (if/return only)",
+    "R3.7: 'every plain assignment of the local' over-approximates the values that reach the call (flow-"
+    "insensitive); a local bound by anything else (loop target, augmented assignment) is an analysis error",
     "R3.10: the accepted spellings of 'stand-alone' (open_ended) are an enumerated list; an unknown "
     "spelling is an analysis error; one comment token per physical line (so extend/+=/= list(..) agree)",
 ]
@@ -237,16 +260,99 @@ def r3_1(ctx):
               {"guards": _gtxt(mod, st)})
 
 
-@rule("R3.7", "C03", floor=7)
+def _subst(node, env):
+  """Copy of expression `node` with the names in env (name -> expression) replaced."""
+  class T(ast.NodeTransformer):
+    def visit_Name(self, n):
+      return env[n.id] if n.id in env and isinstance(n.ctx, ast.Load) else n
+  import copy
+  return T().visit(copy.deepcopy(node))
+
+
+def _line_values(mod, cls, fn, node, depth=0):
+  """Every value (source text over fn's parameters) the expression `node` may denote inside `fn`.
+
+  Locals are followed through all their plain assignments (both arms of an if/else, conditional
+  expressions), calls of methods of `cls` through their return values (one or two levels).  An
+  over-approximation: a binding that is not a plain `<name> = <expr>` is an analysis error.
+  """
+  if depth > 6:
+    raise AnalysisError(f"{fn.name}: value of {src(node)} is defined recursively")
+  if isinstance(node, ast.IfExp):
+    return _line_values(mod, cls, fn, node.body, depth + 1) | _line_values(mod, cls, fn, node.orelse, depth + 1)
+  if isinstance(node, ast.Name) and node.id not in _params(fn):
+    vals = [n.value for n in walk_no_nested(fn) if isinstance(n, ast.Assign) and len(n.targets) == 1
+            and dotted(n.targets[0]) == node.id]
+    stores = sum(1 for n in walk_no_nested(fn) if isinstance(n, ast.Name) and n.id == node.id
+                 and not isinstance(n.ctx, ast.Load))
+    if stores == 0:
+      return {node.id}
+    if stores != len(vals):
+      raise AnalysisError(f"{fn.name}: local {node.id} is bound by something other than a plain assignment")
+    return set().union(*(_line_values(mod, cls, fn, v, depth + 1) for v in vals))
+  if isinstance(node, ast.Call) and isinstance(node.func, ast.Attribute) and dotted(node.func.value) == "self" \
+      and node.func.attr in mod.methods(cls):
+    callee = mod.methods(cls)[node.func.attr]
+    if callee.args.vararg or callee.args.kwarg or callee.decorator_list:
+      raise AnalysisError(f"{callee.name}: signature not understood")
+    bound = _bind(node, callee)
+    out = set() if flow.terminates(callee.body) else {"None"}
+    for r in _returns(callee):
+      for v in (_line_values(mod, cls, callee, r.value, depth + 1) if r.value is not None else {"None"}):
+        tree = ast.parse(v, mode="eval").body
+        free = flow.names_in(tree) & set(_params(callee)[1:])
+        if free - set(bound):
+          raise AnalysisError(f"{src(node)}: parameter {sorted(free - set(bound))} of {callee.name} is not bound")
+        # a parameter is replaced by each value its argument may have
+        texts = {v}
+        for p in sorted(free):
+          argvals = _line_values(mod, cls, fn, ast.parse(bound[p], mode="eval").body, depth + 1)
+          texts = {src(_subst(ast.parse(t, mode="eval").body, {p: ast.parse(a, mode="eval").body}))
+                   for t in texts for a in argvals}
+        out |= texts
+    return out
+  return {src(node)}
+
+
+def _expr_body(fn):
+  """The expression of a method whose body is `return <expr>` (after a docstring), else None."""
+  body = fn.body[1:] if fn.body and isinstance(fn.body[0], ast.Expr) and isinstance(
+      fn.body[0].value, ast.Constant) and isinstance(fn.body[0].value.value, str) else fn.body
+  return body[0].value if len(body) == 1 and isinstance(body[0], ast.Return) and body[0].value is not None else None
+
+
+def _inline_self_calls(mod, cls, expr, depth=0):
+  """`expr` with calls `self.m(<simple args>)` of single-expression methods of cls replaced by their value."""
+  ms = mod.methods(cls)
+
+  class T(ast.NodeTransformer):
+    def visit_Call(self, n):
+      self.generic_visit(n)
+      if isinstance(n.func, ast.Attribute) and dotted(n.func.value) == "self" and n.func.attr in ms and depth < 3:
+        callee = ms[n.func.attr]
+        body = _expr_body(callee)
+        simple = all(dotted(a) is not None or isinstance(a, ast.Constant)
+                     for a in list(n.args) + [k.value for k in n.keywords])
+        if body is not None and simple and not callee.decorator_list and not callee.args.vararg \
+            and not callee.args.kwarg and not any(isinstance(a, ast.Starred) for a in n.args) \
+            and all(k.arg for k in n.keywords):
+          names = _params(callee)[1:]
+          env = {**dict(zip(names, n.args)), **{k.arg: k.value for k in n.keywords}}
+          if set(env) == set(names) and len(n.args) <= len(names):
+            return _inline_self_calls(mod, cls, _subst(body, env), depth + 1)
+      return n
+  import copy
+  return T().visit(copy.deepcopy(expr))
+
+
+_OWN, _START = "line", "line_range.start_line"
+
+
+@rule("R3.7", "C03", floor=8)
 def r3_7(ctx):
   """A trailing directive registers only its own line (D16 known finding)."""
   mod = get_module(ctx, DIR)
-  adj = mod.func("Director._adjust_line_number_for_pytype_directive")
-  rets = sorted({src(r.value) if r.value else "None" for r in _returns(adj)})
-  ctx.check(set(rets) <= {"line", "line_range.start_line"} and _params(adj)[1:2] == ["line"]
-            and "line_range" in _params(adj) and flow.terminates(adj.body),
-            "Director._adjust_line_number_for_pytype_directive:returns", DIR, adj.lineno,
-            f"returns {rets}; only the own line or the range start line are expected", {"returns": rets})
+  seen = set()
   for qual in _PROCS:
     fn, st, open_arm, _, recv, memb, _ = _arms(mod, qual)
     opens = {id(n) for s in open_arm for n in ast.walk(s)}
@@ -255,21 +361,43 @@ def r3_7(ctx):
         continue
       a, m = _reg_args(ctx, c)
       got = _resolve(fn, c.func.value)
-      full = _resolve(fn, ast.Name(id=a)) if a.isidentifier() and a != "line" else a
-      # the range start line (the D16 mechanism) is called final_line whatever the local's name
-      canon = "final_line" if full == "line_range.start_line" or full.startswith(
-          "self._adjust_line_number_for_pytype_directive(") else a
+      anode = ast.parse(a, mode="eval").body
+      vals = _line_values(mod, "Director", fn, anode)
+      own = vals == {_OWN} or (a.isidentifier() and any(_eq_test(t, p, a) for t, p in _guards(mod, c)))
+      # the line adjustment (the D16 mechanism: own line or the start line of the enclosing range) is keyed
+      # final_line whatever the local is called and whether a helper method or inline code computes it
+      if vals <= {_OWN, _START} and _START in vals:
+        canon = "final_line"
+      elif own or not a.isidentifier():
+        canon = a
+      else:
+        canon = f"{a}={'|'.join(sorted(vals))}"
+      if _START in vals:
+        # where the adjusted line comes from: a helper method of the Director (one instance per helper)
+        # or inline code (one per directive kind)
+        helpers = sorted({k.func.attr for v in [anode] + [n.value for n in walk_no_nested(fn)
+                          if isinstance(n, ast.Assign)] for k in calls_in(v)
+                          if isinstance(k.func, ast.Attribute) and dotted(k.func.value) == "self"
+                          and k.func.attr in mod.methods("Director")
+                          and _START in _line_values(mod, "Director", fn, k)})
+        for key, line in [(f"Director.{h}:returns", mod.methods("Director")[h].lineno) for h in helpers] or [
+            (f"{qual}:adjusted-line", c.lineno)]:
+          if key not in seen:
+            seen.add(key)
+            ctx.check(vals <= {_OWN, _START}, key, DIR, line,
+                      f"the adjusted line is one of {sorted(vals)}; only the own line or the range start line "
+                      "are expected", {"returns": sorted(vals)})
       why = []
       if got != recv:
         why.append(f"writes line set {got}, expected {recv}")
       if m != memb:
         why.append(f"membership {m}, expected {memb}")
-      if not (a == "line" or any(_eq_test(t, p, a) for t, p in _guards(mod, c))):
-        why.append(f"registers line `{a}`, which is not the comment's own line")
+      if not own:
+        why.append(f"registers line `{a}` (one of {sorted(vals)}), which is not the comment's own line")
       if c.func.attr == "start_range" and id(c) not in opens:
         why.append("starts a range for a trailing (not open-ended) directive")
       ctx.check(not why, f"{qual}:{c.func.attr}({canon})" + ("" if got == recv else f"@{got}"), DIR,
-                c.lineno, "; ".join(why), {"receiver": got, "line": a, "membership": m})
+                c.lineno, "; ".join(why), {"receiver": got, "line": a, "values": sorted(vals), "membership": m})
 
 
 _MUT = {"append", "extend", "insert", "remove", "pop", "clear", "sort", "reverse",
@@ -450,11 +578,13 @@ def r3_3(ctx):
   final = fn.body[-1]
   if not isinstance(final, ast.Return) or final.value is None:
     raise AnalysisError("filter_error does not end in a return")
+  # the verdict may delegate to single-expression methods of the Director (`not self._is_suppressed(..)`)
+  verdict = _inline_self_calls(mod, "Director", final.value)
   atoms = set()
-  _beval(final.value, {}, atoms)
+  _beval(verdict, {}, atoms)
   atoms = sorted(atoms)
   want = {"self._ignore", "self._disables[_ALL_ERRORS]", f"self._disables[{err}.name]"}
-  table_ok = all(_beval(final.value, dict(zip(atoms, bits)), set()) == (not any(bits))
+  table_ok = all(_beval(verdict, dict(zip(atoms, bits)), set()) == (not any(bits))
                  for bits in itertools.product((False, True), repeat=len(atoms)))
   lefts = sorted({a for a, _ in atoms})
   v = _single_def(fn, lefts[0]) if lefts[0].isidentifier() else None
@@ -463,7 +593,7 @@ def r3_3(ctx):
   keyexpr = v if v is not None else ast.parse(lefts[0], mode="eval").body
   ctx.check(table_ok and {c for _, c in atoms} == want and len(lefts) == 1
             and f"{err}.line" in flow.attrs_in(keyexpr),
-            "Director.filter_error:conjunction", DIR, final.lineno, f"returns {src(final.value)} with line = "
+            "Director.filter_error:conjunction", DIR, final.lineno, f"returns {src(verdict)} with line = "
             f"{line}: must be true iff the error's line is in none of {sorted(want)}", {"atoms": atoms, "line": line})
   allowed = {f"{err}.filename != self._filename", f"{err}.line is None"}
   odd = []
@@ -507,10 +637,16 @@ def r3_4(ctx):
   if len(others) != 1:
     raise AnalysisError("__contains__: expected one range fall-back return")
   val, g = others[0].value, _gtxt(mod, others[0])
-  m = re.fullmatch(r"(\w+) % 2 (==|!=) ([01])", src(val))
-  if not m:
+  # `<position> % 2 == 1` (or `!= 0`, operands swapped); the position is a once-bound local or written inline
+  cmp_ = val
+  a, b = (cmp_.left, cmp_.comparators[0]) if isinstance(cmp_, ast.Compare) and len(cmp_.ops) == 1 else (None, None)
+  if isinstance(a, ast.Constant):
+    a, b = b, a
+  if not (isinstance(cmp_, ast.Compare) and isinstance(cmp_.ops[0], (ast.Eq, ast.NotEq)) and isinstance(a, ast.BinOp)
+          and isinstance(a.op, ast.Mod) and isinstance(a.right, ast.Constant) and a.right.value == 2
+          and isinstance(b, ast.Constant) and b.value in (0, 1) and not isinstance(b.value, bool)):
     raise AnalysisError(f"__contains__: range parity test has unknown shape {src(val)}")
-  pos, odd = _resolve(fn, ast.Name(id=m.group(1))), (m.group(2) == "==") == (m.group(3) == "1")
+  pos, odd = _resolve(fn, a.left), isinstance(cmp_.ops[0], ast.Eq) == (b.value == 1)
   ctx.check(any(x in miss for x in g) and odd and pos in (
       f"bisect.bisect(self._transitions, {key})", f"bisect.bisect_right(self._transitions, {key})"),
             "_LineSet.__contains__:range-fallback", DIR, others[0].lineno,
@@ -523,6 +659,91 @@ def r3_4(ctx):
   st = [(src(n.targets[0]), src(n.value)) for n in sl.body if isinstance(n, ast.Assign)]
   ctx.check(st == [(f"self._lines[{a}]", b)], "_LineSet.set_line:stores", DIR, sl.lineno,
             f"set_line performs {st}; it must store the given membership under the given line", {"stores": st})
+
+
+_IS_CALL_RANGE = re.compile(r"isinstance\(line_range, (\w+\.)?Call\)")
+
+
+def _bindings(fn, name):
+  """(values of the plain assignments to local `name`, other binding constructs) in fn."""
+  vals = [n.value for n in walk_no_nested(fn) if isinstance(n, ast.Assign) and len(n.targets) == 1
+          and dotted(n.targets[0]) == name]
+  others = [n for n in walk_no_nested(fn) if not (isinstance(n, ast.Assign) and len(n.targets) == 1
+                                                  and dotted(n.targets[0]) == name)
+            and not isinstance(n, (ast.FunctionDef, ast.AsyncFunctionDef, ast.Lambda))
+            and any(isinstance(x, ast.Name) and x.id == name and not isinstance(x.ctx, ast.Load)
+                    for x in ast.iter_child_nodes(n) for x in ([x] + ([e for e in x.elts] if isinstance(
+                        x, (ast.Tuple, ast.List)) else [])))]
+  return vals, others
+
+
+def _formula(fn, closures, node, depth=0):
+  """`node` as a formula over atoms: once-bound locals and calls of local closures are expanded."""
+  if depth > 6:
+    raise AnalysisError(f"{fn.name}: `{src(node)}` is defined recursively")
+  rec = lambda n: _formula(fn, closures, n, depth + 1)
+  if isinstance(node, ast.UnaryOp) and isinstance(node.op, ast.Not):
+    return ast.UnaryOp(op=ast.Not(), operand=rec(node.operand))
+  if isinstance(node, ast.BoolOp):
+    return ast.BoolOp(op=node.op, values=[rec(v) for v in node.values])
+  if isinstance(node, ast.IfExp):
+    return ast.IfExp(test=rec(node.test), body=rec(node.body), orelse=rec(node.orelse))
+  if isinstance(node, ast.Name) and node.id not in _params(fn) and node.id not in closures:
+    vals, others = _bindings(fn, node.id)
+    if len(vals) == 1 and not others:
+      return rec(vals[0])
+  if isinstance(node, ast.Call) and isinstance(node.func, ast.Name) and node.func.id in closures:
+    # OR over the closure's returning paths of (path condition AND returned value), arguments substituted
+    cl = closures[node.func.id]
+    names = _params(cl)
+    if node.keywords or len(node.args) != len(names) or any(isinstance(x, ast.Starred) for x in node.args) \
+        or set(names) & _stored(cl) or not all(dotted(x) or isinstance(x, ast.Constant) for x in node.args):
+      raise AnalysisError(f"{fn.name}: call `{src(node)}` of a local closure not understood")
+    env, alts = dict(zip(names, node.args)), []
+    for ev, how in _paths(cl.body):
+      if how == "raise":
+        continue
+      if any(e[0] == "stmt" and not isinstance(e[1], (ast.Return, ast.Pass)) and not (
+          isinstance(e[1], ast.Expr) and isinstance(e[1].value, ast.Constant)) for e in ev):
+        raise AnalysisError(f"{fn.name}: closure {cl.name} is not a pure predicate")
+      conds = [rec(_subst(e[1], env)) if e[2] else ast.UnaryOp(op=ast.Not(), operand=rec(_subst(e[1], env)))
+               for e in ev if e[0] == "cond"]
+      ret = ev[-1][1] if how == "return" else None
+      value = rec(_subst(ret.value, env)) if ret is not None and ret.value is not None else ast.Constant(value=False)
+      alts.append(ast.BoolOp(op=ast.And(), values=conds + [value]))
+    return ast.BoolOp(op=ast.Or(), values=alts) if alts else ast.Constant(value=False)
+  return node
+
+
+def _atom(node):
+  """(canonical text of the positive atom, polarity)."""
+  if isinstance(node, ast.Compare) and len(node.ops) == 1 and isinstance(
+      node.ops[0], (ast.Eq, ast.NotEq, ast.In, ast.NotIn, ast.Is, ast.IsNot)):
+    l, r, op = src(node.left), src(node.comparators[0]), node.ops[0]
+    if isinstance(op, (ast.Eq, ast.NotEq)):
+      l, r = sorted((l, r))
+      return f"{l} == {r}", isinstance(op, ast.Eq)
+    if isinstance(op, (ast.In, ast.NotIn)):
+      return f"{l} in {r}", isinstance(op, ast.In)
+    return f"{l} is {r}", isinstance(op, ast.Is)
+  return src(node), True
+
+
+def _feval(node, val, atoms):
+  """Truth value of a formula under the atom assignment `val`; collects the atoms."""
+  if isinstance(node, ast.Constant):
+    return bool(node.value)
+  if isinstance(node, ast.UnaryOp) and isinstance(node.op, ast.Not):
+    return not _feval(node.operand, val, atoms)
+  if isinstance(node, ast.BoolOp):
+    vs = [_feval(v, val, atoms) for v in node.values]
+    return all(vs) if isinstance(node.op, ast.And) else any(vs)
+  if isinstance(node, ast.IfExp):
+    c, x, y = (_feval(n, val, atoms) for n in (node.test, node.body, node.orelse))
+    return x if c else y
+  key, pol = _atom(node)
+  atoms.add(key)
+  return val.get(key, False) == pol
 
 
 @rule("R3.5", "C03", floor=6)
@@ -599,17 +820,43 @@ def r3_5(ctx):
               "its directives are lost", {"popped_into": src(par)[:80] if par is not None else None})
   # Director side: base ranges are never skipped, every comment is dispatched
   dmod = get_module(ctx, DIR)
-  keep = dmod.func("Director._process_disable.keep")
-  is_call = re.compile(r"isinstance\(line_range, (\w+\.)?Call\)")
-  wrong = [src(r) for r in _returns(keep) if not any(p and is_call.fullmatch(src(t)) for t, p in _guards(dmod, r))
-           and not any(o == "True" or (o[:4] == "not " and is_call.fullmatch(o[4:])) for o in (
-               [src(x) for x in getattr(r.value, "values", [r.value])]
-               if not isinstance(getattr(r.value, "op", None), ast.And) else []))]
-  if any("isinstance" in w for w in wrong):
-    raise AnalysisError(f"keep(): unknown idiom {wrong}")
-  ctx.check(not wrong and flow.terminates(keep.body), "Director._process_disable.keep:base-range", DIR,
-            keep.lineno, f"keep() answers {wrong} for a base LineRange; only Call ranges may be skipped",
-            {"returns": [src(r) for r in _returns(keep)]})
+  pd, split = _arms(dmod, "Director._process_disable")[:2]
+  closures = {n.name: n for n in pd.body if isinstance(n, ast.FunctionDef)}
+  lv = _arms(dmod, "Director._process_disable")[6]
+  # what is known about a directive that must be registered: a base range, at least one name, a valid name
+  is_call = [src(n) for n in ast.walk(pd) if isinstance(n, ast.Call) and _IS_CALL_RANGE.fullmatch(src(n))]
+  valid = ast.parse(f"{lv} == _ALL_ERRORS or self._errorlog.is_valid_error_name({lv})", mode="eval").body
+  assume = [(ast.parse(t, mode="eval").body, False) for t in sorted(set(is_call))] + [
+      (valid, True), (ast.Name(id="values"), True)]
+  known = set()
+  for t, _ in assume:
+    _feval(t, {}, known)
+  gs = [(t, _formula(pd, closures, t), p) for t, p in _guards(dmod, split)]
+  atoms = set(known)
+  for _, f, _ in gs:
+    _feval(f, {}, atoms)
+  atoms = sorted(atoms)
+  if len(atoms) > 12:
+    raise AnalysisError("_process_disable: too many conditions before the registration")
+  wrong = {}
+  for bits in itertools.product((False, True), repeat=len(atoms)):
+    val = dict(zip(atoms, bits))
+    if all(_feval(t, val, set()) == p for t, p in assume):
+      for t, f, p in gs:
+        if _feval(f, val, set()) != p:
+          mine = set()
+          _feval(f, {}, mine)
+          wrong.setdefault((src(t), p), set()).update(mine - known)
+  modconst = set(dmod.assigns) | {lv}
+  for (t, p), free in wrong.items():
+    odd = sorted(x for x in free if not flow.names_in(ast.parse(x, mode="eval")) <= modconst)
+    if odd:
+      raise AnalysisError(f"_process_disable: guard `{t}` before the registration depends on {odd}: not understood")
+  ctx.check(not wrong, "Director._process_disable" + (".keep" if "keep" in closures else "") + ":base-range",
+            DIR, split.lineno, "a valid error name in a base LineRange (not a Call range) is registered only if "
+            f"{sorted(wrong)} hold(s), which depends on {sorted(set().union(*wrong.values())) if wrong else []}: "
+            "only Call ranges may be skipped", {"guards": [(src(t), p) for t, _, p in gs], "assumed": [
+                (src(t), p) for t, p in assume]})
   fn = dmod.func("Director._parse_src_tree")
   for target in ("_process_type", "_process_pytype"):
     calls = calls_in(fn, name=f"self.{target}")
@@ -858,6 +1105,48 @@ def _line_writers(ctx):
       for n in ast.walk(fn)))
 
 
+def _moves_param(mod, cls, callee, param, writers, depth=0):
+  """Does method `callee` of `cls` move the error bound to its parameter `param`?
+
+  "sure": it calls a line writer on it / stores its line (directly or in a method of cls it hands it to);
+  "no": it only reads attributes of it or calls other methods on it; "maybe": the error escapes.
+  """
+  if param in _stored(callee) or depth > 2 or callee.args.vararg or callee.args.kwarg:
+    return "maybe"
+  parent = {c: p for p in ast.walk(callee) for c in ast.iter_child_nodes(p)}
+  res = "no"
+  for n in ast.walk(callee):
+    if not (isinstance(n, ast.Name) and n.id == param):
+      continue
+    p = parent[n]
+    if isinstance(p, ast.Attribute) and p.value is n:
+      call = parent.get(p)
+      if not isinstance(p.ctx, ast.Load) and p.attr in ("line", "_line"):
+        return "sure"
+      if isinstance(call, ast.Call) and call.func is p and p.attr in writers:
+        return "sure"
+      continue
+    if isinstance(p, ast.keyword):
+      p = parent[p]
+    if isinstance(p, ast.Call) and (n in p.args or any(k.value is n for k in p.keywords)):
+      sub = "maybe"
+      if isinstance(p.func, ast.Attribute) and dotted(p.func.value) == "self" and p.func.attr in mod.methods(cls):
+        callee2 = mod.methods(cls)[p.func.attr]
+        try:
+          b = _bind(p, callee2)
+        except AnalysisError:
+          b = {}
+        ps = [k for k, v in b.items() if v == param]
+        if len(ps) == 1 and ps[0] in _params(callee2):
+          sub = _moves_param(mod, cls, callee2, ps[0], writers, depth + 1)
+      if sub == "sure":
+        return "sure"
+      res = "maybe" if sub == "maybe" else res
+      continue
+    res = "maybe"   # aliased, returned, stored
+  return res
+
+
 class _LineKeyFlow(flow.Flow):
   """May-flow of `<tag>:<local>` facts over one function.
 
@@ -868,8 +1157,9 @@ class _LineKeyFlow(flow.Flow):
   odd:N     N was bound by something other than an assignment statement
   """
 
-  def __init__(self, fn, err, writers):
-    self._err, self._writers = err, writers
+  def __init__(self, fn, err, writers, effect=None):
+    # effect(call) -> "sure" | "no" | "maybe": what a call that receives the error as an argument does to it
+    self._err, self._writers, self._effect = err, writers, effect or (lambda call: "maybe")
     self._line_attrs = (f"{err}.line", f"{err}._line")
     super().__init__(fn, gen=lambda u: (), mode="may")
 
@@ -889,8 +1179,10 @@ class _LineKeyFlow(flow.Flow):
     sure = [n for n in nodes if (isinstance(n, ast.Call) and isinstance(n.func, ast.Attribute)
                                  and dotted(n.func.value) == self._err and n.func.attr in self._writers)
             or (isinstance(n, ast.Attribute) and not isinstance(n.ctx, ast.Load) and dotted(n) in self._line_attrs)]
-    maybe = [n for n in nodes if isinstance(n, ast.Call) and n not in sure and any(
+    passed = [(n, self._effect(n)) for n in nodes if isinstance(n, ast.Call) and n not in sure and any(
         dotted(a) == self._err for a in list(n.args) + [k.value for k in n.keywords])]
+    sure += [n for n, e in passed if e == "sure"]
+    maybe = [n for n, e in passed if e not in ("sure", "no")]
     stored = {n.id for n in nodes if isinstance(n, ast.Name) and not isinstance(n.ctx, ast.Load)}
     reads = any(isinstance(n, ast.Attribute) and isinstance(n.ctx, ast.Load) and dotted(n) in self._line_attrs
                 for n in nodes)
@@ -933,19 +1225,49 @@ def r3_9(ctx):
   tables.discard(None)
   if not tables:
     raise AnalysisError("Director.__init__: no _LineSet tables found")
-  f = _LineKeyFlow(fn, err, writers)
-  tests = []
+  ms = mod.methods("Director")
+
+  def own_method(call):
+    return ms.get(call.func.attr) if isinstance(call.func, ast.Attribute) and dotted(call.func.value) == "self" else None
+
+  def effect(call):
+    """What a method of the Director does to the error it is handed (other callees: unknown)."""
+    callee = own_method(call)
+    if callee is None:
+      return "maybe"
+    try:
+      ps = [k for k, v in _bind(call, callee).items() if v == err]
+    except AnalysisError:
+      return "maybe"
+    return _moves_param(mod, "Director", callee, ps[0], writers) if len(ps) == 1 else "maybe"
+  f = _LineKeyFlow(fn, err, writers, effect)
+
+  def table_tests(expr):
+    return [n for n in ast.walk(expr) if isinstance(n, ast.Compare) and len(n.ops) == 1
+            and isinstance(n.ops[0], (ast.In, ast.NotIn)) and dotted(
+                n.comparators[0].value if isinstance(n.comparators[0], ast.Subscript) else n.comparators[0]) in tables]
+
+  def consults(callee, depth=0):
+    """Does the method (or a method of the Director it calls) read one of the tables?"""
+    return bool(flow.attrs_in(callee) & tables) or (depth < 3 and any(
+        consults(ms[c.func.attr], depth + 1) for c in calls_in(callee) if own_method(c) is not None))
+  tests = []   # (test, statement of filter_error it is evaluated in)
   for n in walk_no_nested(fn):
-    if isinstance(n, ast.Compare) and len(n.ops) == 1 and isinstance(n.ops[0], (ast.In, ast.NotIn)):
-      c = n.comparators[0]
-      if dotted(c.value if isinstance(c, ast.Subscript) else c) in tables:
-        tests.append(n)
+    if isinstance(n, ast.Compare):
+      tests += [(t, mod.enclosing_stmt(n)) for t in table_tests(n) if t is n]
+    elif isinstance(n, ast.Call) and own_method(n) is not None and consults(own_method(n)):
+      # a single-expression helper is judged on its value, with the caller's arguments in place of its parameters
+      inl = _inline_self_calls(mod, "Director", n)
+      if isinstance(inl, ast.Call) and own_method(inl) is not None or any(
+          own_method(c) is not None and consults(own_method(c)) for c in calls_in(inl)):
+        raise AnalysisError(f"filter_error: {n.func.attr} consults the disable tables in a way that is not understood")
+      tests += [(t, mod.enclosing_stmt(n)) for t in table_tests(inl)]
   if not tests:
     raise AnalysisError("filter_error: no membership test on the disable tables found")
   movers = sorted({src(c) for c in calls_in(fn) if isinstance(c.func, ast.Attribute)
-                   and dotted(c.func.value) == err and c.func.attr in writers})
-  for t in tests:
-    stmt = mod.enclosing_stmt(t)
+                   and (dotted(c.func.value) == err and c.func.attr in writers
+                        or own_method(c) is not None and effect(c) == "sure")})
+  for t, stmt in tests:
     st = f.before.get(stmt)
     if st is None:
       continue   # unreachable
@@ -1104,11 +1426,29 @@ def r3_10(ctx):
   mloop = floops[0]
   pre = fn.body[:fn.body.index(mloop)]
 
+  # locals bound once before the loop (plain or element-wise tuple assignment) and not rebound in it are inlined
+  cand = {}
+  for n in pre:
+    if isinstance(n, ast.Assign) and len(n.targets) == 1:
+      t, v = n.targets[0], n.value
+      if isinstance(t, ast.Name):
+        cand.setdefault(t.id, []).append(v)
+      elif isinstance(t, ast.Tuple) and isinstance(v, ast.Tuple) and len(t.elts) == len(v.elts) \
+          and all(isinstance(e, ast.Name) for e in t.elts):
+        # the right-hand sides are evaluated before any element is bound
+        if {e.id for e in t.elts} & flow.names_in(v):
+          raise AnalysisError(f"_process_comment: `{src(n)}` rebinds names it reads")
+        for e, x in zip(t.elts, v.elts):
+          cand.setdefault(e.id, []).append(x)
+  rebound = {x for st in fn.body if st not in pre or not isinstance(st, ast.Assign) for x in _stored(st)}
+  env = {k: v[0] for k, v in cand.items() if len(v) == 1 and k not in _params(fn) and k not in rebound
+         and sum(1 for st in pre if k in _stored(st)) == 1}
+
   def resolve(node):
-    if isinstance(node, ast.Name) and node.id not in _params(fn):
-      vals = [n.value for n in pre if isinstance(n, ast.Assign) and any(dotted(t) == node.id for t in n.targets)]
-      if len(vals) == 1:
-        return src(vals[0])
+    for _ in range(6):
+      if not flow.names_in(node) & set(env):
+        break
+      node = _subst(node, env)
     return src(node)
   # (a) the loop visits every match of _DIRECTIVE_RE in the comment text
   it, part = mloop.iter, None
@@ -1126,15 +1466,23 @@ def r3_10(ctx):
   if not isinstance(mloop.target, ast.Name) or mloop.orelse:
     raise AnalysisError("_process_comment: loop target / else clause not understood")
   mv = mloop.target.id
+  # "there is no match at all": the materialised match list is empty, or search() (first match anywhere in the
+  # text; match()/fullmatch() only look at its start) finds nothing
+  first = f"_DIRECTIVE_RE.search({L}[{C}:])"
+  no_match = [{(seq, False)}, {(f"len({seq}) == 0", True)}, {(first, False)}, {(f"{first} is None", True)},
+              {(f"{first} is not None", False)}] if seq != whole else [
+                  {(first, False)}, {(f"{first} is None", True)}, {(f"{first} is not None", False)}]
   early = []
   for ev, how in _paths(pre):
     if how == "fall":
       continue
-    lits = _path_literals(ev, src)
-    if lits in ({(src(it), False)}, {(f"len({src(it)}) == 0", True)}):
+    lits = _path_literals(ev, resolve)
+    if how == "return" and lits in no_match:
+      if (src(ev[-1][1].value) if ev[-1][1].value is not None else "None") not in ("None", "[]", "()", "list()"):
+        raise AnalysisError(f"_process_comment: `{src(ev[-1][1])}` for a comment without directives not understood")
       continue
     if how == "return" and lits and all(flow.names_in(ast.parse(t.split(" == ")[0], mode="eval")) <= set(_params(fn))
-                                        | {n for s in pre for n in _stored(s)} for t, _ in lits):
+                                        | {n for s in pre for n in _stored(s)} | {"_DIRECTIVE_RE"} for t, _ in lits):
       early.append(sorted(lits))
     else:
       raise AnalysisError(f"_process_comment: exit before the match loop under {sorted(lits)} not understood")
@@ -1142,11 +1490,34 @@ def r3_10(ctx):
             (f"only {part} of the matches are visited; " if part else "") +
             (f"the comment is dropped as a whole under {early}; " if early else "") +
             "every directive of the comment must be visited", {"iterates": seq, "part": part, "early_exits": early})
-  # (b) what is yielded
+  # (b) what is produced: `yield _StructuredComment(..)` (generator), or `<acc>.append(_StructuredComment(..))`
+  # on a list that starts empty, is touched nowhere else and is what the function returns after the loop
+  yields = [n for n in walk_no_nested(fn) if isinstance(n, (ast.Yield, ast.YieldFrom))]
   ys = [n for n in walk_no_nested(mloop) if isinstance(n, ast.Yield)]
-  if len(ys) != 1 or not (isinstance(ys[0].value, ast.Call) and dotted(ys[0].value.func) == "_StructuredComment"):
-    raise AnalysisError("_process_comment: exactly one `yield _StructuredComment(..)` expected in the loop")
-  fields = _bind_fields(mod, ys[0].value, "_StructuredComment")
+  post = fn.body[fn.body.index(mloop) + 1:]
+  if yields:
+    if len(ys) != 1 or len(yields) != 1 or not (isinstance(ys[0].value, ast.Call)
+                                                and dotted(ys[0].value.func) == "_StructuredComment"):
+      raise AnalysisError("_process_comment: exactly one `yield _StructuredComment(..)` expected in the loop")
+    emit, made = ys[0], ys[0].value
+  else:
+    apps = [c for c in calls_in(mloop) if isinstance(c.func, ast.Attribute) and c.func.attr == "append"
+            and isinstance(c.func.value, ast.Name) and len(c.args) == 1 and isinstance(c.args[0], ast.Call)
+            and dotted(c.args[0].func) == "_StructuredComment"]
+    if len(apps) != 1 or not isinstance(mod.parent[apps[0]], ast.Expr):
+      raise AnalysisError("_process_comment: exactly one `yield _StructuredComment(..)` or "
+                          "`<list>.append(_StructuredComment(..))` expected in the loop")
+    emit, made, acc = mod.parent[apps[0]], apps[0].args[0], apps[0].func.value.id
+    uses = [n for n in ast.walk(fn) if isinstance(n, ast.Name) and n.id == acc]
+    init = [n for n in pre if isinstance(n, ast.Assign) and len(n.targets) == 1 and dotted(n.targets[0]) == acc]
+    handed_back = [r.value for r in _returns(fn) if r.value is not None and dotted(r.value) == acc]
+    if not (len(uses) == 2 + len(handed_back) and len(init) == 1 and src(init[0].value) in ("[]", "list()")
+            and acc not in _params(fn) and len(post) == 1 and isinstance(post[0], ast.Return)
+            and dotted(post[0].value) == acc):
+      raise AnalysisError(f"_process_comment: `{acc}` is not a fresh list that is only appended to in the loop "
+                          "and returned after it")
+  ys = [emit]
+  fields = _bind_fields(mod, made, "_StructuredComment")
   if set(fields) != {"line", "tool", "data", "open_ended"}:
     raise AnalysisError(f"_StructuredComment fields {sorted(fields)} not understood")
   grp = {}   # local -> regex group number
@@ -1238,6 +1609,10 @@ def _v(name, rid, file, old, new, expect="fire"):
 
 def _vs(name, rid, expect, *edits):
   return {"name": name, "rule": rid, "expect": expect, "edits": list(edits)}
+
+
+def _p(name, rid, patch, expect="fire"):
+  return {"name": name, "rule": rid, "patch": patch, "expect": expect}
 
 
 _FILT = "if self._filter is None or self._filter(error):"
@@ -1401,6 +1776,62 @@ VARIANTS = [
         (PAR, "  open_ended = not line[:col].strip()\n", "  alone = not line[:col].strip()\n"),
         (PAR, "if tool == \"type\" and open_ended and is_nested:", "if tool == \"type\" and alone and is_nested:"),
         (PAR, "yield _StructuredComment(lineno, tool, data, open_ended)", "yield _StructuredComment(lineno, tool, data, alone)")),
+    # behaviour-preserving refactorings (benign/<id>/patch.diff) stay silent; the same refactoring plus a defect
+    # (benign/<id>/defect_*.diff) is still caught in the refactored shape
+    _p("twin-benign-C03-r1-lineset-helpers-inline-bisect", "R3.4", "benign/C03-r1/patch.diff", "silent"),
+    _p("C03-r1+range-parity-inverted", "R3.4", "benign/C03-r1/defect_parity_inverted.diff"),
+    _p("C03-r1+bisect_left", "R3.4", "benign/C03-r1/defect_bisect_left.diff"),
+    _v("twin-parity-of-inline-bisect_right", "R3.4", DIR,
+       "    pos = bisect.bisect(self._transitions, line)\n    return (pos % 2) == 1\n",
+       "    return 0 != bisect.bisect_right(self._transitions, line) % 2\n", "silent"),
+    _v("inline-bisect-parity-inverted", "R3.4", DIR,
+       "    pos = bisect.bisect(self._transitions, line)\n    return (pos % 2) == 1\n",
+       "    return bisect.bisect_right(self._transitions, line) % 2 != 1\n"),
+    _p("twin-benign-C03-r2-closure-and-helper-inlined-guard-clauses", "R3.7", "benign/C03-r2/patch.diff", "silent"),
+    _p("C03-r2+adjusted-to-range-end", "R3.7", "benign/C03-r2/defect_adjusted_to_range_end.diff"),
+    _p("C03-r2+extra-line-registered", "R3.7", "benign/C03-r2/defect_extra_line_registered.diff"),
+    _p("C03-r2+own-line-dropped", "R3.1", "benign/C03-r2/defect_own_line_dropped.diff"),
+    _p("C03-r2+base-range-skipped", "R3.5", "benign/C03-r2/defect_base_range_skipped.diff"),
+    _p("C03-r2+range-kind-test-inverted", "R3.5", "benign/C03-r2/defect_base_range_skipped_inverted.diff"),
+    _p("C03-r2+enable-wired-to-disable", "R3.6", "benign/C03-r2/defect_enable_wired_to_disable.diff"),
+    _v("twin-adjustment-as-conditional-expression", "R3.7", DIR,
+       "          final_line = self._adjust_line_number_for_pytype_directive(\n"
+       "              line, error_name, line_range\n          )\n",
+       "          final_line = line_range.start_line if error_name in _ALL_ADJUSTABLE_ERRORS else line\n", "silent"),
+    _v("adjustment-inline-to-range-end", "R3.7", DIR,
+       "          final_line = self._adjust_line_number_for_pytype_directive(\n"
+       "              line, error_name, line_range\n          )\n",
+       "          final_line = line_range.end_line if error_name in _ALL_ADJUSTABLE_ERRORS else line\n"),
+    _v("adjust-helper-called-with-range-end", "R3.7", DIR,
+       "          final_line = self._adjust_line_number_for_pytype_directive(\n              line, error_name,",
+       "          final_line = self._adjust_line_number_for_pytype_directive(\n              line_range.end_line, "
+       "error_name,"),
+    _v("twin-keep-as-conditional-expression", "R3.5", DIR,
+       "      if isinstance(line_range, parser.Call):\n        return error_name in _FUNCTION_CALL_ERRORS\n"
+       "      else:\n        return True\n",
+       "      return error_name in _FUNCTION_CALL_ERRORS if isinstance(line_range, parser.Call) else True\n", "silent"),
+    _v("keep-ignores-the-range-kind", "R3.5", DIR,
+       "      if isinstance(line_range, parser.Call):\n        return error_name in _FUNCTION_CALL_ERRORS\n"
+       "      else:\n        return True\n",
+       "      return error_name in _FUNCTION_CALL_ERRORS\n"),
+    _v("skip-test-without-keep-ignores-the-range-kind", "R3.5", DIR, "        if not keep(error_name):",
+       "        if error_name not in _FUNCTION_CALL_ERRORS:"),
+    _p("twin-benign-C03-r3-list-builder-search-hoisted-closure", "R3.10", "benign/C03-r3/patch.diff", "silent"),
+    _p("C03-r3+only-first-match", "R3.10", "benign/C03-r3/defect_only_first_match.diff"),
+    _p("C03-r3+match-instead-of-search", "R3.10", "benign/C03-r3/defect_match_instead_of_search.diff"),
+    _p("C03-r3+nested-discard-returns", "R3.10", "benign/C03-r3/defect_nested_discard_returns.diff"),
+    _p("C03-r3+any-nested-dropped", "R3.10", "benign/C03-r3/defect_any_nested_dropped.diff"),
+    _p("C03-r3+list-reset-in-loop", "R3.10", "benign/C03-r3/defect_list_reset_in_loop.diff", "error"),
+    _p("C03-r3+other-list-returned", "R3.10", "benign/C03-r3/defect_other_list_returned.diff", "error"),
+    _v("first-match-tested-at-start-only", "R3.10", PAR, "  if not matches:\n    return\n",
+       "  if not _DIRECTIVE_RE.match(line[col:]):\n    return\n"),
+    _v("twin-first-match-by-search", "R3.10", PAR, "  if not matches:\n    return\n",
+       "  if _DIRECTIVE_RE.search(line[col:]) is None:\n    return\n", "silent"),
+    _p("twin-benign-C03-r4-filter-split-into-helpers-early-return", "R3.9", "benign/C03-r4/patch.diff", "silent"),
+    _p("C03-r4+key-before-adjustment", "R3.9", "benign/C03-r4/defect_key_before_adjustment.diff"),
+    _p("C03-r4+wildcard-not-consulted", "R3.3", "benign/C03-r4/defect_wildcard_not_consulted.diff"),
+    _p("C03-r4+verdict-not-negated", "R3.3", "benign/C03-r4/defect_verdict_not_negated.diff"),
+    _p("C03-r4+filter-bypassed-for-one-class", "R3.2", "benign/C03-r4/defect_filter_bypassed.diff"),
     # R3.5 / R3.8: definite deviations are violations, not analysis errors
     _v("type-comments-never-dispatched", "R3.5", DIR,
        "          self._process_type(\n              comment.line, comment.data, comment.open_ended, line_range\n          )\n",
